@@ -23,7 +23,7 @@ RULE = (
     "is checked for all g in B_2 / class representatives of B_3. Non-trivial: >=1 optimiser step applied, a non-filter leaf moved, "
     "g != e; distinct by (architecture, optimiser, loss, batch, epochs)."
 )
-RULE += " Also: fixed histories (pseudo-types through normalisation, scalar+vector, a group-averaged conventional network, ONE TrainLoss object shared by a baseline run and the equivariant run), amplified-displacement oracle."
+RULE += " Also: fixed histories (pseudo-types through normalisation, scalar+vector, a pointwise network built on the 1x1 filter bank, a group-averaged conventional network, ONE TrainLoss object shared by a baseline run and the equivariant run), amplified-displacement oracle."
 ASSUMPTIONS = ["C07's tolerances", "bank ratio tolerance 1e-5", "one CPU device (pmap over a single device)"]
 ANCHORS = ["ginjax.ml.training:train_step", "ginjax.ml.training:train", "ginjax.ml.training:get_batches", "ginjax.ml.layers:ConvContract.individual_convolve"]
 MIN_NONTRIVIAL = {"quick": 5, "thorough": 80}
@@ -38,7 +38,7 @@ def cases(tier, seed):
     out = [{"D": 2 if i % 5 else 3, "opt": opts[i % 3], "loss": ["smse", "normalized"][(i // 3) % 2]} for i in range(n)]
     # fixed histories: a pseudo-scalar / pseudo-vector type carried through normalisation (parameterisations that are
     # equivariant at initialisation only would be moved off it by the optimiser)
-    for j, f in enumerate(FIXED if tier == "thorough" else FIXED[:5]):
+    for j, f in enumerate(FIXED if tier == "thorough" else FIXED[:6]):
         out.append({"D": 2, "opt": opts[j % 3], "loss": "smse", "cfg": f})
     return out
 
@@ -48,6 +48,9 @@ FIXED = [
     {"cls": "ResNet", "D": 2, "equivariant": True, "in_sig": [[[0, 0], 2], [[1, 0], 1]], "out_sig": [[[1, 0], 1], [[0, 0], 2]], "depth": 2, "num_blocks": 1, "num_conv": 1, "num_downsamples": 1, "activation": "gelu", "norm": False, "preact": False, "bias": "auto", "bank_ks": [0, 1, 2], "torus": [True, True], "N": [4, 4], "keep_depth": True},
     {"cls": "ResNet", "D": 2, "equivariant": True, "in_sig": [[[0, 1], 1], [[1, 0], 1]], "out_sig": [[[0, 1], 1]], "depth": 1, "num_blocks": 1, "num_conv": 1, "num_downsamples": 1, "activation": "gelu", "norm": True, "preact": True, "bias": "auto", "bank_ks": [0, 1, 2], "torus": [True, True], "N": [4, 4]},
     {"cls": "ConvBlock", "D": 2, "equivariant": True, "in_sig": [[[0, 1], 2], [[1, 1], 1]], "out_sig": [[[0, 1], 2], [[1, 1], 2]], "depth": 1, "num_blocks": 1, "num_conv": 1, "num_downsamples": 1, "activation": "relu", "norm": True, "preact": False, "bias": "mean", "bank_ks": [0, 1, 2], "torus": [False, False], "N": [4, 5]},
+    # a pointwise network: every convolution uses the 1x1 filter bank (Kronecker delta for vector -> vector, Levi-Civita for the
+    # pseudo pairs): layers of this kind may take a shortcut of their own; the bank must still only ever be rescaled
+    {"cls": "ResNet", "D": 2, "equivariant": True, "conv_M": 1, "in_sig": [[[1, 0], 2], [[0, 1], 1]], "out_sig": [[[1, 0], 1], [[1, 1], 1]], "depth": 2, "keep_depth": True, "num_blocks": 1, "num_conv": 1, "num_downsamples": 1, "activation": "gelu", "norm": False, "preact": False, "bias": "auto", "bank_ks": [0, 1, 2], "torus": [True, True], "N": [4, 4]},
     # call history on the stop condition: ONE TrainLoss object is first used to train a conventional baseline and then passed
     # to the training of the equivariant model (one shared kwargs dict, as in ml.benchmark); what the second call returns must
     # still be the equivariant model
